@@ -1,13 +1,15 @@
-\* 1-2 nodes: any subset of the files remembered by the cache (partial expiry); cpusets over 2 CPUs, limits {1,2,Unl}
+\* 2-3 nodes: any subset of the files remembered by the cache (partial expiry); cpusets over 2 CPUs, limits {1,2,Unl}
 SPECIFICATION GenSpec
 CONSTANTS
   CacheMerged = TRUE
+  OwnUnion = TRUE
   MaxRewrites = 1
   MinNodes = 2
   MaxNodes = 3
   CPUs = {0, 1}
   LimitVals = {1, 2, 99}
   Kinds = {"cpuset", "limit"}
+  Algos = {"leveled"}
   CacheMode = "subsets"
 INVARIANT GenPrint
 CHECK_DEADLOCK FALSE
